@@ -65,6 +65,35 @@ def main() -> int:
         d["paths"] = {"/h": {"get": {"operationId": "get_h", "parameters": [{"name": "stamp", "in": "query", "schema": {"type": "string", "nullable": True, "oneOf": [{"type": "string", "format": "date"}, {"type": "string", "format": "uuid"}]}}],
                                      "responses": {"200": {"description": "ok", "content": {"application/json": {"schema": {"type": "object", "nullable": True, "oneOf": [Rf("Household"), Rf("Dog")]}}}}}}}}
         bases.append((f"nullable_typed_composition:{vi}", d, {"nullable_typed_composition"}))
+    # 3.1 type lists naming "null" first and last, for every member type, as property / items / parameter / response
+    for vi in range(2):
+        d = docs.base_doc("3.1.0", "Type list order")
+        members = {"s": {"type": "string"}, "d": {"type": "string", "format": "date"}, "dt": {"type": "string", "format": "date-time"}, "u": {"type": "string", "format": "uuid"}, "i": {"type": "integer"}, "n": {"type": "number"},
+                   "b": {"type": "boolean"}, "a": {"type": "array", "items": {"type": "string"}}, "am": {"type": "array", "items": Rf("Cat")}, "o": {"type": "object", "properties": {"k": {"type": "string"}}}}
+        props = {}
+        for mk_, ms_ in members.items():
+            for first in (True, False):
+                props[f"{mk_}_{'nf' if first else 'nl'}"] = dict(docs.clone(ms_), type=(["null", ms_["type"]] if first else [ms_["type"], "null"]), **({"description": f"{mk_} or nothing"} if vi else {}))
+        d["components"]["schemas"] = {"Cat": {"type": "object", "properties": {"meow": {"type": "boolean"}}}, "Parcel": {"type": "object", "required": ["s_nf", "o_nf"] if vi else [], "properties": props},
+                                      "Wrapper": {"type": "object", "properties": {"list_of": {"type": "array", "items": {"type": ["null", "string"], "format": "date"}}, "extra": {"type": ["null", "array"], "items": {"type": ["null", "integer"]}}}}}
+        d["paths"] = {"/parcel": {"get": {"operationId": "get_parcel", "parameters": [{"name": "since", "in": "query", "schema": {"type": ["null", "string"], "format": "date"}}, {"name": "n", "in": "query", "schema": {"type": ["integer", "null"]}}],
+                                          "responses": {"200": {"description": "ok", "content": {"application/json": {"schema": Rf("Parcel")}}}, "201": {"description": "ok", "content": {"application/json": {"schema": {"type": ["null", "array"], "items": Rf("Cat")}}}}}}}}
+        bases.append((f"typelist_order:{vi}", d, {"typelist_order"}))
+    # an allOf child re-declaring inherited nullable / union properties with other annotations (description, example, default): the merge must not depend on the spelling of "nullable"
+    for vi in range(2):
+        d = docs.base_doc("3.0.3", "Redeclared nullable")
+        N = lambda t_, **kw: dict({"type": t_, "nullable": True}, **kw)  # noqa: E731
+        d["components"]["schemas"] = {
+            "Cat": {"type": "object", "properties": {"meow": {"type": "boolean"}}},
+            "Pet": {"type": "object", "required": ["name"] if vi else [], "properties": {"name": N("string", description="pet name"), "born": N("string", format="date", description="birthday"), "legs": N("integer", example=4),
+                                                                                          "tags": N("array", items={"type": "string"}, description="labels"), "weight": N("number"), "chip": N("string", format="uuid", description="chip id"),
+                                                                                          "mix": {"oneOf": [{"type": "string"}, {"type": "integer"}], "description": "either"}, "friend": {"nullable": True, "allOf": [Rf("Cat")], "description": "a cat"}}},
+            "Dog": {"allOf": [Rf("Pet"), {"type": "object", "properties": {"name": N("string", description="dog name"), "born": N("string", format="date", description="whelped", example="2020-01-02"), "legs": N("integer", example=3, default=4),
+                                                                            "tags": N("array", items={"type": "string"}, description="dog labels"), "weight": N("number", description="kg"), "chip": N("string", format="uuid"),
+                                                                            "mix": {"oneOf": [{"type": "string"}, {"type": "integer"}], "description": "still either"}, "friend": {"nullable": True, "allOf": [Rf("Cat")], "description": "a feline friend"}, "bark": {"type": "boolean"}}}]},
+            "Puppy": {"allOf": [Rf("Dog"), {"type": "object", "properties": {"name": N("string", description="puppy name")}}]}}
+        d["paths"] = {"/pets": {"get": {"operationId": "list_pets", "responses": {"200": {"description": "ok", "content": {"application/json": {"schema": {"type": "array", "items": Rf("Dog")}}}}, "201": {"description": "ok", "content": {"application/json": {"schema": Rf("Puppy")}}}}}}}
+        bases.append((f"redeclared_nullable:{vi}", d, {"redeclared_nullable"}))
     # documents with a nullable composing allOf carrying sibling annotations (3.0 spelling)
     for i in range(12 if quick else 120):
         d, feats = docs.random_doc(("C17n", seed(), i), version="3.0.3", n_ops=2)
@@ -114,7 +143,7 @@ def main() -> int:
                              ("nullable_ref_member", lambda: rewrite.rw_nullable_ref(r, p)), ("nullable_typed_composition", lambda: rewrite.rw_nullable_typed_composition(r, p)), ("nullable_allof_multi", lambda: rewrite.rw_nullable_allof_multi(r, p)), ("enum_null_union", lambda: rewrite.rw_enum_null(r, p, "plain")), ("enum_null_union_nullable30", lambda: rewrite.rw_enum_null(r, p, "nullable30")),
                              ("enum_null_union_typelist31", lambda: rewrite.rw_enum_null(r, p, "typelist31")),
                              ("wrap_ref", lambda: rewrite.rw_wrap_ref(r, p)), ("wrap_ref_allOf", lambda: rewrite.rw_wrap_ref(r, p, "allOf")), ("wrap_ref_anyOf", lambda: rewrite.rw_wrap_ref(r, p, "anyOf")),
-                             ("unwrap_ref", lambda: rewrite.rw_unwrap_ref(r, p))):
+                             ("unwrap_ref", lambda: rewrite.rw_unwrap_ref(r, p)), ("typelist_member", lambda: rewrite.rw_typelist_member(r, p))):
                 fn = mk()
                 v = rewrite.map_schemas(d, fn)
                 if fn.count[0] == 0:
